@@ -85,6 +85,23 @@ def make(i, base_seed, tier):
             ops.append(op)
             if rng.random() < 0.4:
                 ops.append({"op": "drain"})
+    # reverse direction (role switching): the transmitter also owns a reading pipe (pipe 0 half of the time)
+    cfg["rpipe"] = rng.choice([0, 0, 1, 2, 5])
+    rp1 = bytes(rng.getrandbits(8) for _ in range(5))
+    if cfg["rpipe"] < 2:
+        raddr = bytes(rng.getrandbits(8) for _ in range(5))
+        if cfg["rpipe"] == 1:
+            rp1 = raddr
+    else:
+        raddr = bytes([rp1[0] ^ 0x5A]) + rp1[1:]
+    cfg["raddr"], cfg["rp1"] = raddr.hex(), rp1.hex()
+    if not grid and rng.random() < 0.5:
+        k = 0
+        while k < len(ops):
+            if ops[k]["op"] != "drain" and rng.random() < 0.3:
+                ops.insert(k, {"op": "turn"})
+                k += 1
+            k += 1
     faults = []
     if cfg["auto_ack"] and rng.random() < 0.5:
         for op in ops:
@@ -125,6 +142,18 @@ def _run(scn, cfg, w, res):
     conc = scn.get("mode") == "conc"
     rt, tx, rr, rx = common.setup_link(w, cfg, tx_mcu, rx_mcu if conc else tx_mcu)
     rt.spi_log = []
+    rr.spi_log = []
+    fwd = True   # direction of traffic; a "turn" op swaps the roles of the two radios
+    fwd_addr = unhx(cfg["addr"])[: cfg["aw"] if cfg.get("trunc_addr") else 5]
+    rev_addr = None
+    if "raddr" in cfg:
+        n_ = cfg["aw"] if cfg.get("trunc_addr") else 5
+        rev_addr = unhx(cfg["raddr"])[:n_]
+        # the transmitter's own reading pipe, opened while in TX mode (as an application would at start-up)
+        if cfg["rpipe"] >= 2:
+            tx.open_rx_pipe(1, unhx(cfg["rp1"])[:n_])
+        tx.open_rx_pipe(cfg["rpipe"], rev_addr)
+        tx.open_tx_pipe(fwd_addr)
     expected = []   # payloads that must come out of the peer, in order
     got = []        # (pipe, any, bytes)
     state = {"stop": False}
@@ -153,6 +182,18 @@ def _run(scn, cfg, w, res):
 
     outstanding = 0
     for op in scn["ops"]:
+        if op["op"] == "turn":
+            if conc or rev_addr is None:
+                continue
+            drain_all()
+            outstanding = 0
+            sim.log("call", "T" if fwd else "R", "turn")
+            tx.listen = True                 # old transmitter starts listening on its own pipe
+            rx.listen = False                # old receiver becomes the transmitter
+            rx.open_tx_pipe(rev_addr if fwd else fwd_addr)
+            tx, rx, rt, rr = rx, tx, rr, rt
+            fwd = not fwd
+            continue
         if op["op"] == "drain":
             if not conc:
                 drain_all()
@@ -226,7 +267,7 @@ def _run(scn, cfg, w, res):
         rets = ret if op["list"] else [ret]
         if not isinstance(rets, list) or len(rets) != len(bufs) or not all(bool(x) for x in rets):
             res.add("result", {"kind": "send_reported_failure"}, "%s returned %r on a working link" % (op["op"], ret))
-        expected.extend(exp)
+        expected.extend((cfg["pipe"] if fwd else cfg["rpipe"], e) for e in exp)
         outstanding += len(bufs)
         res.nontrivial = True
 
@@ -238,7 +279,7 @@ def _run(scn, cfg, w, res):
         sim.join([rx_task], timeout=200 * MS)
     else:
         drain_all()
-    want = [(cfg["pipe"], len(e), e) for e in expected]
+    want = [(pp, len(e), e) for (pp, e) in expected]
     if got != want:
         kind = "mismatch"
         gb = [g[2] for g in got]
